@@ -136,18 +136,23 @@ def _aklist(x):
     return x
 
 
+_beh_cache: dict = {}
+
+
 def _beh(b):
+    """Content signature of a behavior mapping (identity does not matter: an equal copy is 'unchanged')."""
     if b is None:
         return "beh:None"
     import awkward
-    import vector.backends.awkward as vaw
 
-    if b is vaw.behavior:
-        return "beh:vector"
     if b is awkward.behavior:
         return "beh:global-registry"  # its content is process-wide state (I1), not operand state
     try:
-        return f"beh:dict:{len(b)}:{hashlib.sha256(repr(sorted(map(repr, b.keys()))).encode()).hexdigest()[:8]}"
+        key = (id(b), len(b))
+        sig = _beh_cache.get(key)
+        if sig is None:
+            sig = _beh_cache[key] = f"beh:{len(b)}:{hashlib.sha256(repr(sorted(map(repr, b.keys()))).encode()).hexdigest()[:8]}"
+        return sig
     except Exception:
         return "beh:?"
 
@@ -171,7 +176,7 @@ def snap(v, depth=0):
         for g in ("azimuthal", "longitudinal", "temporal"):
             c = getattr(v, g, None)
             if c is not None:
-                parts.append((type(c).__name__, id(c), tuple((type(e).__name__, _fhex(e) if isinstance(e, (int, float, numpy.generic)) else repr(e)) for e in tuple(c))))
+                parts.append((type(c).__name__, 0, tuple((type(e).__name__, _fhex(e) if isinstance(e, (int, float, numpy.generic)) else repr(e)) for e in tuple(c))))
         return ("vobj", tuple(parts))
     if isinstance(v, numpy.ndarray):
         base = v.base
@@ -182,12 +187,12 @@ def snap(v, depth=0):
                      hashlib.sha256(base.view(numpy.ndarray).tobytes()).hexdigest()[:24] if bdt != object else None)
         d = getattr(v, "__dict__", None)
         dt = _dt(v)
-        return ("nd", type(v).__name__, str(dt.descr) if dt.names else str(dt), id(dt), dt.names,
+        return ("nd", type(v).__name__, str(dt.descr) if dt.names else str(dt), 0, dt.names,
                 v.shape, v.strides, v.flags.writeable,
                 hashlib.sha256(v.view(numpy.ndarray).tobytes()).hexdigest()[:24] if dt != object else repr(v.tolist()),
                 tuple(sorted((k, getattr(x, "__name__", repr(x))) for k, x in d.items())) if d else (), bsnap)
     if isinstance(v, numpy.dtype):
-        return ("dtype", id(v), v.names, str(v.descr) if v.names else str(v))
+        return ("dtype", 0, v.names, str(v.descr) if v.names else str(v))
     try:
         import awkward as ak
     except ImportError:  # pragma: no cover
@@ -196,22 +201,22 @@ def snap(v, depth=0):
         form, length, bufs = ak.to_buffers(v)
         return ("ak", type(v).__name__, form.to_json(), length,
                 tuple((k, hashlib.sha256(numpy.asarray(b).tobytes()).hexdigest()[:16]) for k, b in sorted(bufs.items())),
-                id(v.behavior) if v.behavior is not None else None, _beh(v.behavior), id(v.layout), tuple(ak.fields(v)))
+                v.behavior is None, _beh(v.behavior), 0, tuple(ak.fields(v)))
     if ak is not None and isinstance(v, ak.Record):
         arr = ak.Array(v.layout.array)
         form, length, bufs = ak.to_buffers(arr)
         return ("akrec", type(v).__name__, v.layout.at, form.to_json(), length,
                 tuple((k, hashlib.sha256(numpy.asarray(b).tobytes()).hexdigest()[:16]) for k, b in sorted(bufs.items())),
-                id(v.behavior) if v.behavior is not None else None, _beh(v.behavior))
+                v.behavior is None, _beh(v.behavior))
     try:
         import vector.backends.sympy as vsy
         import sympy
     except ImportError:  # pragma: no cover
         vsy = None
     if vsy is not None and isinstance(v, vsy.VectorSympy):
-        return ("vsym", repr(canon(v)), tuple(id(getattr(v, g, None)) for g in ("azimuthal", "longitudinal", "temporal")))
+        return ("vsym", repr(canon(v)))
     if isinstance(v, dict):
-        return ("dict", id(v), tuple((repr(k), snap(x, depth + 1)) for k, x in v.items()))
+        return ("dict", 0, tuple((repr(k), snap(x, depth + 1)) for k, x in v.items()))
     if isinstance(v, (list, tuple)):
         return (type(v).__name__, tuple(snap(x, depth + 1) for x in v))
     return ("val", repr(canon(v)))
@@ -224,7 +229,7 @@ def snap_diff(a, b):
     if a[0] != b[0]:
         return f"kind {a[0]}->{b[0]}"
     if a[0] == "nd":
-        names = ("", "class", "dtype", "dtype-object-identity", "dtype.names", "shape", "strides", "writeable", "bytes", "instance-dict", "base-array")
+        names = ("", "class", "dtype", "-", "dtype.names", "shape", "strides", "writeable", "bytes", "instance-dict", "base-array")
         diffs = [names[i] for i in range(1, len(a)) if a[i] != b[i]]
         extra = ""
         if "dtype.names" in diffs:
@@ -234,10 +239,10 @@ def snap_diff(a, b):
             extra += " base:" + ",".join(bn[i] for i in range(4) if a[10][i] != b[10][i])
         return "nd:" + ",".join(diffs) + extra
     if a[0] == "ak":
-        names = ("", "class", "form", "length", "buffers", "behavior-identity", "behavior-content", "layout-identity", "fields")
+        names = ("", "class", "form", "length", "buffers", "behavior-none", "behavior-content", "-", "fields")
         return "ak:" + ",".join(names[i] for i in range(1, len(a)) if a[i] != b[i])
     if a[0] == "akrec":
-        names = ("", "class", "at", "form", "length", "buffers", "behavior-identity", "behavior-content")
+        names = ("", "class", "at", "form", "length", "buffers", "behavior-none", "behavior-content")
         return "akrec:" + ",".join(names[i] for i in range(1, len(a)) if a[i] != b[i])
     if a[0] == "vobj":
         return f"vobj:{a[1]}->{b[1]}"
@@ -271,7 +276,6 @@ def global_state(full=False):
         "warnings.filters": (id(warnings.filters), _filters_canon()),
         "warnings.showwarning": id(warnings.showwarning),
         "awkward.behavior": (id(awkward.behavior), tuple(awkward.behavior.keys()), tuple(map(id, awkward.behavior.values()))),
-        "vector.behavior": (id(vaw.behavior), tuple(vaw.behavior.keys()), tuple(map(id, vaw.behavior.values()))),
         "_awkward_registered": vector._awkward_registered,
     }
     if full:
@@ -286,11 +290,6 @@ def global_state(full=False):
         st["recursionlimit"] = sys.getrecursionlimit()
         st["cwd"] = os.getcwd()
         st["environ"] = hashlib.sha256(repr(sorted(os.environ.items())).encode()).hexdigest()[:12]
-        st["gc"] = gc.isenabled()
-        st["switchinterval"] = sys.getswitchinterval()
-        st["threads"] = threading.active_count()
-        st["stdout"] = (id(sys.stdout), id(sys.stderr))
-        st["displayhook"] = (id(sys.displayhook), id(sys.excepthook))
     return st
 
 
